@@ -35,6 +35,16 @@ OPS = [
     ("range", re.compile(r"\.\.=(?=[\w(])"), ".."),
     ("not", re.compile(r"(?<![\w!=])!(?=[a-z_(])"), ""),
 ]
+# method / function word swaps (kind "word")
+WORDS = [("saturating_sub", "wrapping_sub"), ("wrapping_sub", "saturating_sub"), (".min(", ".max("), (".max(", ".min("),
+         (".first()", ".last()"), (".last()", ".first()"), (".floor()", ".ceil()"), (".floor()", ".round()"),
+         (".round()", ".floor()"), (".is_some()", ".is_none()"), (".is_none()", ".is_some()"), (".any(", ".all("),
+         (".all(", ".any("), ("min_by", "max_by"), ("max_by", "min_by"), (".abs()", ""), (".sin()", ".cos()"),
+         (".cos()", ".sin()"), (".rev()", ""), ("sin_cos()", "sin_cos().1.sin_cos()"), (".is_empty()", ".len() == 1"),
+         ("from_le_bytes", "from_be_bytes"), (".skip(", ".skip(1 + "), (".take(", ".take(1 + "), ("..=", ".."),
+         ("position(", "rposition("), (".pop()", ".first().copied()"), ("swap_remove", "remove"), ("is_negative()", "is_positive()"),
+         ("hypot", "max"), ("atan2", "hypot")]
+
 INT = re.compile(r"(?<![\w.\"'])(\d+)(?![\w.\"']|\.\d)")
 HEX = re.compile(r"(?<![\w.])0x([0-9a-fA-F_]+)\b")
 
@@ -113,6 +123,17 @@ def mutants_of(path):
                     continue
                 new = l[:m.start()] + rep + l[m.end():]
                 out.append({"line": i + 1, "kind": kind, "old": l.strip(), "new": new.strip(), "text": new})
+        for a, b in WORDS:
+            start = 0
+            while True:
+                k = l.find(a, start)
+                if k < 0 or k >= end:
+                    break
+                start = k + len(a)
+                if in_string(l, k):
+                    continue
+                new = l[:k] + b + l[k + len(a):]
+                out.append({"line": i + 1, "kind": "word", "old": l.strip(), "new": new.strip(), "text": new})
         table_row = len(INT.findall(l[:end])) >= 5     # rows of constant tables: at most one literal each
         for k, m in enumerate(INT.finditer(l)):
             if m.start() >= end or in_string(l, m.start()):
